@@ -155,51 +155,68 @@ func runC11(ctx *Ctx, idx int) {
 	}
 	vals := genVals(r, vkind, n, r.Intn(3))
 	ctx.Count("valkind:"+vkind, 1)
-	enc := vals.Encoder()
-	var st *trie.SlimTrie
+	// The instance is built twice from the same recipe: one copy answers the
+	// operations alone (phase 1), the other is handed to the goroutines without
+	// ever having been read - a lazily initialised or first-use cached state
+	// would otherwise be warmed up by phase 1 and its race hidden.
 	var o OptSet
 	instName := ""
-	var err error
-	switch kindNo {
-	case 0:
-		o = OptSet{D: r.Bool(), C: true}
-		st, err = trie.NewSlimTrie(enc, keys, vals.Slice(), o.Opt())
-		instName = "fresh-complete"
-	case 1:
-		o = OptSet{D: true, I: r.Bool(), L: false}
-		st, err = trie.NewSlimTrie(enc, keys, vals.Slice(), o.Opt())
-		instName = "fresh-filter"
-	case 2:
-		o = allOptSets()[r.Intn(16)]
-		var s0 *trie.SlimTrie
-		s0, err = trie.NewSlimTrie(enc, keys, vals.Slice(), o.Opt())
-		if err == nil {
-			b, _ := s0.Marshal()
-			st, err, _, _ = loadTrie(enc, b)
-		}
-		instName = "loaded-current"
-	case 3:
-		o = OptSet{D: true, C: true}
-		var s0 *trie.SlimTrie
-		s0, err = trie.NewSlimTrie(enc, keys, vals.Slice(), o.Opt())
-		if err == nil {
-			b, _ := s0.Marshal()
-			var ls []byte
-			ls, err = legacyStream0510(b, "0.5.10")
+	rInst := r.U64()
+	mk := func() (*trie.SlimTrie, error) {
+		r := NewRNG(rInst)
+		enc := vals.Encoder() // each copy gets its own encoder object too
+		var st *trie.SlimTrie
+		var err error
+		switch kindNo {
+		case 0:
+			o = OptSet{D: r.Bool(), C: true}
+			st, err = trie.NewSlimTrie(enc, keys, vals.Slice(), o.Opt())
+			instName = "fresh-complete"
+		case 1:
+			o = OptSet{D: true, I: r.Bool(), L: false}
+			st, err = trie.NewSlimTrie(enc, keys, vals.Slice(), o.Opt())
+			instName = "fresh-filter"
+		case 2:
+			o = allOptSets()[r.Intn(16)]
+			var s0 *trie.SlimTrie
+			s0, err = trie.NewSlimTrie(enc, keys, vals.Slice(), o.Opt())
 			if err == nil {
+				b, _ := s0.Marshal()
+				st, err, _, _ = loadTrie(enc, b)
+			}
+			instName = "loaded-current"
+		case 3:
+			o = OptSet{D: true, C: true}
+			var s0 *trie.SlimTrie
+			s0, err = trie.NewSlimTrie(enc, keys, vals.Slice(), o.Opt())
+			if err == nil {
+				b, _ := s0.Marshal()
+				var ls []byte
+				ls, err = legacyStream0510(b, "0.5.10")
+				if err == nil {
+					st, err, _, _ = loadTrie(enc, ls)
+				}
+			}
+			instName = "loaded-0.5.10-allpref"
+		case 4:
+			o = OptSet{D: true}
+			ls, ok := legacyStream3(keys, vals, oldVariants[r.Intn(len(oldVariants))])
+			if !ok {
+				err = fmt.Errorf("not encodable")
+			} else {
 				st, err, _, _ = loadTrie(enc, ls)
 			}
+			instName = "loaded-3sec"
 		}
-		instName = "loaded-0.5.10-allpref"
-	case 4:
-		o = OptSet{D: true}
-		ls, ok := legacyStream3(keys, vals, oldVariants[r.Intn(len(oldVariants))])
-		if !ok {
-			err = fmt.Errorf("not encodable")
-		} else {
-			st, err, _, _ = loadTrie(enc, ls)
-		}
-		instName = "loaded-3sec"
+		return st, err
+	}
+	stSolo, err := mk()
+	var st *trie.SlimTrie
+	if err == nil {
+		st, err = mk()
+	}
+	if err == nil && (stSolo == nil || st == nil) {
+		err = fmt.Errorf("nil instance")
 	}
 	if err != nil || st == nil {
 		ctx.Count("skipped:instance_not_built", 1)
@@ -220,10 +237,11 @@ func runC11(ctx *Ctx, idx int) {
 		qs = sel
 	}
 	ops := buildConcOps(st, qs, o.Complete(), vkind == "i32", n <= 300)
+	opsSolo := buildConcOps(stSolo, qs, o.Complete(), vkind == "i32", n <= 300)
 
 	// ---- phase 1: canonical results, sequentially
 	canon := make([]string, len(ops))
-	for i, op := range ops {
+	for i, op := range opsSolo {
 		pv, _ := try(func() { canon[i] = op.run() })
 		if pv != nil {
 			canon[i] = pstr(pv)
@@ -413,7 +431,7 @@ func runC11(ctx *Ctx, idx int) {
 func init() {
 	register(&CheckDef{
 		ID: "C11", Level: "exploration", Race: true,
-		Rule:          "case = (one shared instance: fresh complete / fresh filter / loaded from current bytes / loaded from 0.5.10 allpref bytes / loaded from three-section bytes; G in {2,4,8,16,32} goroutines; GOMAXPROCS in {1,2,16}); every goroutine runs two seeded permutations of a fixed list of ~200-400 read operations (Get, GetID, RangeGet, Search, GetI32, ScanFrom, ScanFromTo, NewIter cursors, Stat, String, Marshal, proto.Size) with randomized yielding, released from a barrier; oracle: zero reports of the Go race detector with a frame in slim/low/protobuf, every concurrent result equals the result of the same operation run alone, k iterators of one trie stepped round-robin and across goroutines each yield exactly their own sequence; the harness itself is built with -race; non-trivial = every case; distinct by keys and (G, GOMAXPROCS)",
+		Rule:          "case = (one shared instance: fresh complete / fresh filter / loaded from current bytes / loaded from 0.5.10 allpref bytes / loaded from three-section bytes; G in {2,4,8,16,32} goroutines; GOMAXPROCS in {1,2,16}); every goroutine runs two seeded permutations of a fixed list of ~200-400 read operations (Get, GetID, RangeGet, Search, GetI32, ScanFrom, ScanFromTo, NewIter cursors, Stat, String, Marshal, proto.Size) with randomized yielding, released from a barrier; oracle: zero reports of the Go race detector with a frame in slim/low/protobuf, every concurrent result equals the result of the same operation run alone on an identically built second instance (the shared instance is never read before the goroutines start, so first-use initialisation happens under contention), k iterators of one trie stepped round-robin and across goroutines each yield exactly their own sequence; the harness itself is built with -race; non-trivial = every case; distinct by keys and (G, GOMAXPROCS)",
 		NumCases:      c11NumCases,
 		Run:           runC11,
 		MinNontrivial: func(tier string) int { return c11NumCases(tier) * 3 / 4 },
